@@ -326,7 +326,13 @@ def rules(tier):
             # C12-ca: skip_case restored from the skip_brute key
             ('C12.R11', _shared_rule('c08', 'r11_restore_is_verbatim')),
             # C09-ca: leaving with os._exit because the stdin thread is still blocked loses buffered guesses
-            ('C12.R12', _shared_rule('plumbing', 'no_unflushed_exit'))]
+            ('C12.R12', _shared_rule('plumbing', 'no_unflushed_exit')),
+            # C12-db: is_parent_around with < instead of <= - the pre-terminal pending at the quit no longer counts as queued
+            ('C12.R13', _shared_rule('c08', 'r2_region_agreement')),
+            # C02-da: a second quit point behind create_guesses
+            ('C12.R14', _shared_rule('c08', 'r23_no_save_after_generation')),
+            # C12-da: KeyError in the keyboard thread - a quit typed inside a Markov level is never honoured
+            ('C12.R15', _shared_rule('c07', 'r22_keyspace_types'))]
 
 
 META = {
